@@ -41,7 +41,9 @@ theorem finishFind_heap (sh : Shared) (th : Thread) (item : Nat) (found : Bool) 
   · split
     · rw [enterSoft_sh]
     · rfl
-  · split <;> rfl
+  · split
+    · rfl
+    · rw [afterNext_sh]
 
 theorem afterRead_heap (sh : Shared) (th : Thread) (fp : FP) (next : Nat) (d : Bool) :
     (afterRead sh th fp next d).1.heap = sh.heap := by
@@ -175,7 +177,9 @@ theorem stepThread_hstep {sh : Shared} {th : Thread} (hT : TInv sh.heap th) :
   · exact ⟨.none, .none, trivial⟩
   · refine ⟨.none, ?_, trivial⟩
     unfold stepIterNext; simp only []
-    split <;> exact .none
+    split
+    · exact .none
+    · rw [afterNext_sh]; exact .none
   · -- HELP_DELETE in Iterator.Next
     rename_i it next hpc
     rw [hpc] at hp
@@ -184,12 +188,13 @@ theorem stepThread_hstep {sh : Shared} {th : Thread} (hT : TInv sh.heap th) :
     refine ⟨ev, ?_, ?_⟩
     · unfold stepIterHelp; simp only []
       split
-      · simpa [helpStats_heap] using h1
+      · rw [afterNext_sh]; simpa [helpStats_heap] using h1
       · simpa [helpStats_heap, bumpReadConflicts, startFind_sh] using h1
     · rcases h2 with rfl | rfl | ⟨rfl, _⟩
       · trivial
       · trivial
       · exact .inr ⟨it, next, hpc, rfl⟩
+  · exact ⟨.none, .none, trivial⟩
 
 /-- the full invariant: `Inv` plus the chain invariant of the level-0 core -/
 def InvR (s : Sys) : Prop := Inv s ∧ ReachInv s.sh.heap
